@@ -50,7 +50,7 @@ class Oracle:
                 if not done:
                     w.violate('barrier:next-step-before-completion', dict(feats, key=key), w.at_s2)
                     break
-                idx = int(key[1:])
+                idx = 1 if key == 'self' else int(key[1:])
                 if idx in failing:
                     w.violate('barrier:next-step-after-failure', dict(feats, outcome=items[idx][1]), w.at_s2)
                     break
